@@ -7735,6 +7735,7 @@ if( data == NULL ) { /** Zero out the file data **/
 
    if( total_bytes > DISK_BLOCK_SIZE ) {
       cglong_t t_bytes = total_bytes ;
+      cglong_t n_bytes = DISK_BLOCK_SIZE - current_location.offset ;
 
 	/** If the number of bytes to write is larger than the block of
 	    zeros we have, write out a series of zero blocks...
@@ -7743,24 +7744,23 @@ if( data == NULL ) { /** Zero out the file data **/
 	/** write out the remainder of this block **/
 assert(current_location.offset <= 0x1fff);
       ADFI_write_file( file_index, current_location.block,
-	current_location.offset, DISK_BLOCK_SIZE - current_location.offset + 1,
-	block_of_00, error_return ) ;
+	current_location.offset, n_bytes, block_of_00, error_return ) ;
       if( *error_return != NO_ERROR )
          return ;
 
       current_location.block++ ;
       current_location.offset = 0 ;
-      t_bytes -= (DISK_BLOCK_SIZE - current_location.offset + 1) ;
+      t_bytes -= n_bytes ;
 
 	/** Write blocks of zeros, then a partial block **/
       while( t_bytes > 0 ) {
-assert(current_location.offset <= 0x1fff);
+         n_bytes = MIN( DISK_BLOCK_SIZE, t_bytes ) ;
          ADFI_write_file( file_index, current_location.block,
-		current_location.offset, MIN( DISK_BLOCK_SIZE, t_bytes),
-		block_of_00, error_return ) ;
+		current_location.offset, n_bytes, block_of_00, error_return ) ;
          if( *error_return != NO_ERROR )
             return ;
-         t_bytes -= (MIN( DISK_BLOCK_SIZE, t_bytes)) ;
+         t_bytes -= n_bytes ;
+         current_location.block++ ;
          } /* end while */
 
       } /* end if */
